@@ -33,7 +33,8 @@ CONSTANTS
     Fixed,      \* Rat                fixed fee per trade
     Prop,       \* Rat                proportional fee on |notional|
     Deposit,    \* Rat                initial cash
-    Rate,       \* Rat                reference rate (constant per behaviour)
+    Rate,       \* Rat                reference rate (constant per behaviour when RatePath is empty)
+    RatePath,   \* sequence of <<t, Rat>>, ascending in t: the rate published at time t (model years); <<>>: Rate throughout
     Markup,     \* Rat                broker markup
     Epsilon,    \* Rat                positions smaller than this in absolute value are zeroed after a trade (0: never)
     RefRule,    \* "exec_only" (pinned code) | "carry" (the property)
@@ -160,9 +161,16 @@ TransactF(st, c, dq) == TransactAtF(st, c, dq, st.bid[c], st.ask[c])
 RECURSIVE RPow(_, _)
 RPow(a, k) == IF k = 0 THEN One ELSE Mul(a, RPow(a, k - 1))
 
+\* the rate the book shows at time t: the last one published at or before t (0 before the first publication: the rate
+\* book is seeded with 0).  The accrual of a period uses the rate read when it is made.
+RateAt(t) ==
+    IF RatePath = <<>> THEN Rate
+    ELSE LET ks == {k \in 1..Len(RatePath) : RatePath[k][1] <= t}
+         IN  IF ks = {} THEN Zero ELSE RatePath[CHOOSE k \in ks : \A j \in ks : j <= k][2]
+
 InterestDue(st, t) ==
     LET years == t - st.acc
-        cagr  == Sub(Rate, MulI(Markup, Sign(st.cash)))
+        cagr  == Sub(RateAt(t), MulI(Markup, Sign(st.cash)))
         amt   == Mul(st.cash, Sub(RPow(Add(One, cagr), years), One))
     IN  IF Sign(st.cash) > 0 /\ Sign(amt) < 0 THEN Zero ELSE amt
 
